@@ -31,7 +31,7 @@ func (v *Vue) evalInclude(ctx VueContext, node *html.Node, vars map[string]any, 
 
 	// Merge inherited slots from parent template (passed via __slotScope__ in data)
 	if inheritedSlotScopeData, ok := ctx.stack.EnvMap()["__slotScope__"]; ok {
-		if inheritedSlotScope, ok := inheritedSlotScopeData.(*SlotScope); ok {
+		if inheritedSlotScope, ok := inheritedSlotScopeData.(*SlotScope); ok && inheritedSlotScope != nil {
 			for slotName, slotContent := range inheritedSlotScope.Slots {
 				if ctx.SlotScope.GetSlot(slotName) == nil {
 					// Only add if not already defined in the include tag
